@@ -4,6 +4,7 @@ import math
 from fractions import Fraction
 
 from . import ep
+from . import modelguard
 from .model import AnalysisError, ClassInfo
 from .values import *    # noqa
 from .strtree import *   # noqa
@@ -12,6 +13,7 @@ from .symeval_ops import BoundBuiltin, DerivV, NTClassV, NTV, ExcV, ChunkListV, 
 
 
 _MATH1 = {"exp": ep.exp_, "log": ep.log_, "sqrt": ep.sqrt_}
+_CONSUMERS = {"sorted", "list", "tuple", "set", "frozenset", "map", "filter", "zip", "dict", "sum", "min", "max", "any", "all", "enumerate", "reversed", "len"}
 
 
 class ExtMixin(object):
@@ -21,6 +23,12 @@ class ExtMixin(object):
         short = name.split(".", 1)[1] if name.startswith("builtins.") else name
         h = getattr(self, "x_" + short.replace(".", "_"), None)
         if h is not None:
+            if short in _CONSUMERS and args and hasattr(args[0], "thunk"):
+                # a generator handed to a consuming builtin is drained there and then
+                args = [self.as_iterable(args[0], node)] + list(args[1:])
+            ig = modelguard.unread(h, args, kwargs)
+            if ig is not None:
+                self.err(node, "model of %s does not cover %s" % (short, ig))
             return h(args, kwargs, node, env)
         base = short.split(".")
         if base[0] in ("math", "sympy", "numpy", "np") and len(base) == 2:
@@ -153,6 +161,44 @@ class ExtMixin(object):
             return Num(ep.app(("sum", v.key()), []))
         self.err(node, "sum(%r)" % (v,))
 
+    def x_any(self, args, kwargs, node, env):
+        return self._anyall(False, args, node)
+
+    def x_all(self, args, kwargs, node, env):
+        return self._anyall(True, args, node)
+
+    def _anyall(self, isand, args, node):
+        v = args[0]
+        if isinstance(v, DictV):
+            v = ListV([k for k, _ in v.items.values()], "list")
+        if isinstance(v, SeqV) and v.kind in ("seqmap", "family"):
+            t = self.truth(v.elem)
+            if isinstance(t, bool) and t == isand:
+                return Const(isand)          # all([True, ...]) / any([False, ...]) whatever the length
+            n = self.seq_len(v)
+            if isinstance(t, bool):
+                # decided by emptiness alone
+                c = self.compare(ast.Gt(), Num(n), Num(ep.const(0)), node)
+                if isinstance(c, bool):
+                    return Const(c if not isand else not c)
+                return c if not isand else neg_cond(c)
+            return Cond("unknown", ("all" if isand else "any", v.key()))
+        if not (isinstance(v, ListV) and not getattr(v, "tail", None)):
+            self.err(node, "%s(%r)" % ("all" if isand else "any", v))
+        conds = []
+        for it in v.items:
+            t = self.truth(it)
+            if isinstance(t, bool):
+                if t != isand:
+                    return Const(t)
+                continue
+            conds.append(t)
+        if not conds:
+            return Const(isand)
+        if len(conds) == 1:
+            return conds[0]
+        return Cond("and" if isand else "or", *conds)
+
     def x_min(self, args, kwargs, node, env):
         return self._minmax("min", args, node)
 
@@ -278,11 +324,15 @@ class ExtMixin(object):
 
     def x_enumerate(self, args, kwargs, node, env):
         v = self.as_iterable(args[0], node)
-        if isinstance(v, ListV):
-            return ListV([ListV([Num(ep.const(i)), it], "tuple") for i, it in enumerate(v.items)], "list")
+        extra = set(kwargs) - {"start"}
+        if extra or len(args) > 2:
+            self.err(node, "enumerate() arguments")
+        start = self.num(args[1] if len(args) == 2 else kwargs.get("start", Num(ep.const(0))), node)
+        if isinstance(v, ListV) and not getattr(v, "tail", None):
+            return ListV([ListV([Num(start + ep.const(i)), it], "tuple") for i, it in enumerate(v.items)], "list")
         if isinstance(v, SeqV) and v.kind in ("opaque", "family", "seqmap"):
             var, lo, hi, elem, sv = self.loop_binder(v, node)
-            idx = Num(ep.sym(var) - lo) if sv is None else Num(ep.sym(var))
+            idx = Num(ep.sym(var) - lo + start) if sv is None else Num(ep.sym(var) + start)
             pair = ListV([idx, elem], "tuple")
             if sv is not None:
                 return SeqV("seqmap", var=var, seq=sv, elem=pair)
@@ -294,6 +344,25 @@ class ExtMixin(object):
         if all(isinstance(i, ListV) for i in its):
             n = min(len(i.items) for i in its)
             return ListV([ListV([i.items[k] for i in its], "tuple") for k in range(n)], "list")
+        # sequences indexed by the same underlying user sequence (S itself, or [f(e) for e in S]) advance together
+        bases = []
+        for i in its:
+            if isinstance(i, SeqV) and i.kind == "opaque":
+                bases.append(i)
+            elif isinstance(i, SeqV) and i.kind == "seqmap" and isinstance(i.seq, SeqV) and i.seq.kind == "opaque":
+                bases.append(i.seq)
+            else:
+                bases = None
+                break
+        if bases and all(b.key() == bases[0].key() for b in bases):
+            var = self.fresh_sym("k")
+            elems = []
+            for i in its:
+                if i.kind == "opaque":
+                    elems.append(self.seq_elem(i, ep.sym(var)))
+                else:
+                    elems.append(self.subst(i.elem, {i.var: ep.sym(var)}))
+            return SeqV("seqmap", var=var, seq=bases[0], elem=ListV(elems, "tuple"))
         self.err(node, "zip of symbolic sequences")
 
     def x_iter(self, args, kwargs, node, env):
@@ -327,6 +396,48 @@ class ExtMixin(object):
             if h is not True:
                 self.err(node, "getattr with default on symbolic attribute")
         return self.getattr(args[0], args[1].v, node)
+
+    def x_frozenset(self, args, kwargs, node, env):
+        return self.x_set(args, kwargs, node, env)
+
+    def x_map(self, args, kwargs, node, env):
+        if len(args) != 2:
+            self.err(node, "map over several iterables")
+        fn, seq = args[0], self.as_iterable(args[1], node)
+        if isinstance(seq, ListV) and not getattr(seq, "tail", None):
+            return ListV([self.call(fn, [x], {}, node, env) for x in seq.items], "list")
+        if isinstance(seq, SeqV) and seq.kind in ("family", "seqmap", "opaque"):
+            var, lo, hi, elem, seqv = self.loop_binder(seq, node)
+            self.event_stack.append([])
+            try:
+                out = self.call(fn, [elem], {}, node, env)
+            finally:
+                evs = self.event_stack.pop()
+            if evs:
+                self.log_event(("loop", evs))
+            if seqv is not None:
+                return SeqV("seqmap", var=var, seq=seqv, elem=out)
+            return SeqV("family", var=var, lo=lo, hi=hi, elem=out)
+        self.err(node, "map over %r" % (seq,))
+
+    def x_filter(self, args, kwargs, node, env):
+        fn, seq = args[0], self.as_iterable(args[1], node)
+        if isinstance(seq, ListV) and not getattr(seq, "tail", None):
+            out = []
+            for x in seq.items:
+                t = self.truth(x if (isinstance(fn, Const) and fn.v is None) else self.call(fn, [x], {}, node, env))
+                if not isinstance(t, bool):
+                    self.err(node, "filter with a symbolic predicate")
+                if t:
+                    out.append(x)
+            return ListV(out, "list")
+        self.err(node, "filter over %r" % (seq,))
+
+    def x_setattr(self, args, kwargs, node, env):
+        if not (isinstance(args[1], Const) and isinstance(args[1].v, str)):
+            self.err(node, "setattr with non-constant name")
+        self.setattr(args[0], args[1].v, args[2], node)
+        return NONE
 
     def x_isinstance(self, args, kwargs, node, env):
         v, c = args
@@ -542,6 +653,9 @@ class ExtMixin(object):
             return self.lookup_call(base, name, args, node)
         h = getattr(self, "m_%s_%s" % (type(base).__name__, name), None)
         if h is not None:
+            ig = modelguard.unread(h, args, kwargs)
+            if ig is not None:
+                self.err(node, "model of %s.%s does not cover %s" % (type(base).__name__, name, ig))
             return h(base, args, kwargs, node)
         if isinstance(base, FuncV) and name == "__get__":
             return FuncV(base.fi, base.closure, args[0])
